@@ -282,6 +282,12 @@ func (r *Run) Report() int {
 	if len(samples) == 0 {
 		ev.Coverage["samples"] = []string{"no obligation discharged in this run"}
 	}
+	if len(r.eng.rekeyed) > 0 {
+		ev.Coverage["closure_contracts_rekeyed"] = r.eng.rekeyed
+		for _, n := range r.eng.rekeyed {
+			fmt.Println("note: closure ordinals moved -", n)
+		}
+	}
 	if r.out != "" {
 		os.MkdirAll(filepath.Dir(r.out), 0o755)
 		data, _ := json.MarshalIndent(ev, "", " ")
